@@ -299,6 +299,135 @@ theorem iterate_resumed (c : RecCfg V L E) (P : RHyps c) (rc : RunCfg E) (n i : 
       obtain ⟨rfl, rfl⟩ := hr
       exact ⟨hh, Nat.le_refl _, e, hld⟩
 
+/-! ### memoisation: completed items are not recomputed -/
+
+theorem load_cases' (c : RecCfg V L E) (P : RHyps c) (fs : Files) (hinv : Inv c fs) (i : Nat) (hl : Live c i) :
+    (∃ s, storedAt c i = some s ∧ fs i = c.pk.dump 0 s ∧ c.pk.load (fs i) = .ok s) ∨
+    ((∀ s, storedAt c i = some s → fs i ≠ c.pk.dump 0 s) ∧ ∃ e, c.pk.load (fs i) = .error e ∧ c.caught e = true) := by
+  cases hs : storedAt c i with
+  | none =>
+    right
+    refine ⟨(fun s h => nomatch h), ?_⟩
+    rw [(hinv i).2 (Or.inr hs)]; exact P.h0
+  | some s =>
+    have hp := (hinv i).1 hl s hs
+    by_cases he : fs i = c.pk.dump 0 s
+    · left; refine ⟨s, rfl, he, ?_⟩
+      have := P.h1 i s 0 [] hl hs
+      rw [List.append_nil] at this; rw [he]; exact this
+    · right; exact ⟨fun s' h => by cases h; exact he, P.h2 i s 0 _ hl hs hp he⟩
+
+@[simp] theorem cons_ncomputed (x : V × L) (k : Nat) (r : RunOut V L E) : (r.cons x k).ncomputed = r.ncomputed + k := rfl
+
+theorem setFile_same (fs : Files) (i : Nat) (b : Bytes) : setFile fs i b i = b := by simp [setFile]
+theorem setFile_other (fs : Files) (i j : Nat) (b : Bytes) (h : j ≠ i) : setFile fs i b j = fs j := by simp [setFile, h]
+
+theorem not_live_after_nonitem (c : RecCfg V L E) (i j : Nat) (hij : i < j) (h : ∀ v l, c.resume [] 0 i ≠ .item v l) : ¬ Live c j := by
+  intro hl
+  obtain ⟨v, l, hv⟩ := hl i hij
+  exact h v l hv
+
+/-- after a fault-free `compute` from item `i` for `n` items: earlier files untouched, every live item file in range complete -/
+theorem compute_complete (c : RecCfg V L E) (P : RHyps c) (nonce : Nat) (hist : List V) (idx : Nat)
+    (hg : ∀ j, c.resume hist idx j = c.resume [] 0 (idx + j)) (n i : Nat) (fs : Files)
+    (hinv : Inv c fs) (hl : Live c i) (hidx : idx ≤ i) :
+    let r := compute c ⟨nonce, .none⟩ hist idx n i fs
+    (∀ j, j < i → r.files j = fs j) ∧
+    (∀ j s, i ≤ j → j < i + n → Live c j → storedAt c j = some s → r.files j = c.pk.dump 0 s) := by
+  induction n generalizing i fs with
+  | zero => exact ⟨fun _ _ => rfl, fun j s h1 h2 => by omega⟩
+  | succ n ih =>
+    have hci := compStep_inv c P ⟨nonce, .none⟩ hist idx i fs hinv hl hidx hg
+    have hx : c.resume hist idx (i - idx) = c.resume [] 0 i := by rw [hg]; congr; omega
+    have hI := (hinv i).1 hl
+    unfold compute
+    unfold compStep at hci ⊢
+    simp only [hx] at hci ⊢
+    cases hr : c.resume [] 0 i with
+    | item v l =>
+      rw [hr] at hci
+      have hs : storedAt c i = some (.item l v) := by unfold storedAt; rw [hr]
+      have hfull : overlay (c.pk.dump nonce (.item l v)).length (c.pk.dump nonce (.item l v)) (fs i) = c.pk.dump 0 (.item l v) := by
+        rw [P.h3 _ nonce 0]; exact overlay_full _ _ (hI _ hs)
+      simp only [cons_files]
+      have := ih (i+1) _ hci.1 (live_succ c i hl hr) (by omega)
+      refine ⟨fun j hj => ?_, fun j s h1 h2 hlj hsj => ?_⟩
+      · rw [this.1 j (by omega), setFile_other _ _ _ _ (by omega)]
+      · by_cases hji : j = i
+        · subst hji
+          rw [this.1 j (by omega), setFile_same, hfull]
+          rw [hs] at hsj; cases hsj; rfl
+        · exact this.2 j s (by omega) (by omega) hlj hsj
+    | stop l =>
+      have hs : storedAt c i = some (.stop l) := by unfold storedAt; rw [hr]
+      have hfull : overlay (c.pk.dump nonce (.stop l)).length (c.pk.dump nonce (.stop l)) (fs i) = c.pk.dump 0 (.stop l) := by
+        rw [P.h3 _ nonce 0]; exact overlay_full _ _ (hI _ hs)
+      refine ⟨fun j hj => ?_, fun j s h1 h2 hlj hsj => ?_⟩
+      · simp only []; rw [setFile_other _ _ _ _ (by omega)]
+      · by_cases hji : j = i
+        · subst hji
+          simp only []; rw [setFile_same, hfull]
+          rw [hs] at hsj; cases hsj; rfl
+        · exact absurd hlj (not_live_after_nonitem c i j (by omega) (by intro v' l' h; rw [hr] at h; cases h))
+    | exc e l =>
+      refine ⟨fun j hj => rfl, fun j s h1 h2 hlj hsj => ?_⟩
+      by_cases hji : j = i
+      · subst hji; unfold storedAt at hsj; rw [hr] at hsj; cases hsj
+      · exact absurd hlj (not_live_after_nonitem c i j (by omega) (by intro v' l' h; rw [hr] at h; cases h))
+
+theorem iterate_complete (c : RecCfg V L E) (P : RHyps c) (nonce : Nat) (n i : Nat) (hist : List V) (fs : Files)
+    (hinv : Inv c fs) (hl : Live c i) (hh : hist = lastN c.length (specVals c i)) :
+    let r := iterate c ⟨nonce, .none⟩ n i hist fs
+    (∀ j, j < i → r.files j = fs j) ∧
+    (∀ j s, i ≤ j → j < i + n → Live c j → storedAt c j = some s → r.files j = c.pk.dump 0 s) := by
+  induction n generalizing i hist fs with
+  | zero => exact ⟨fun _ _ => rfl, fun j s h1 h2 => by omega⟩
+  | succ n ih =>
+    unfold iterate
+    rcases load_cases' c P fs hinv i hl with ⟨s, hs, hfs, hld⟩ | ⟨_, e, hld, hc⟩
+    · rw [hld]
+      cases s with
+      | item l v =>
+        have hi := storedAt_item c i hs
+        simp only [cons_files]
+        have := ih (i+1) (push c.length hist v) fs hinv (live_succ c i hl hi) (by rw [hh, push_lastN, specVals_succ c i hi])
+        refine ⟨fun j hj => this.1 j (by omega), fun j s' h1 h2 hlj hsj => ?_⟩
+        by_cases hji : j = i
+        · subst hji
+          rw [this.1 j (by omega), hfs]; rw [hs] at hsj; cases hsj; rfl
+        · exact this.2 j s' (by omega) (by omega) hlj hsj
+      | stop l =>
+        have hi := storedAt_stop c i hs
+        refine ⟨fun j hj => rfl, fun j s' h1 h2 hlj hsj => ?_⟩
+        by_cases hji : j = i
+        · subst hji; simp only []; rw [hfs]; rw [hs] at hsj; cases hsj; rfl
+        · exact absurd hlj (not_live_after_nonitem c i j (by omega) (by intro v' l' h; rw [hi] at h; cases h))
+    · rw [hld]; simp only [hc, if_true]
+      exact compute_complete c P nonce hist i (by intro j; rw [hh]; exact P.consistent i j hl) (n+1) i fs hinv hl (Nat.le_refl _)
+
+/-- if every live item file in range is complete (and no step in range raises), the iteration computes nothing -/
+theorem iterate_hits (c : RecCfg V L E) (P : RHyps c) (rc : RunCfg E) (n i : Nat) (hist : List V) (fs : Files)
+    (hl : Live c i)
+    (hcomp : ∀ j, i ≤ j → j < i + n → Live c j → ∃ s, storedAt c j = some s ∧ fs j = c.pk.dump 0 s) :
+    (iterate c rc n i hist fs).ncomputed = 0 ∧ (iterate c rc n i hist fs).resumed = none ∧ (iterate c rc n i hist fs).files = fs := by
+  induction n generalizing i hist with
+  | zero => exact ⟨rfl, rfl, rfl⟩
+  | succ n ih =>
+    unfold iterate
+    obtain ⟨s, hs, hfs⟩ := hcomp i (Nat.le_refl _) (by omega) hl
+    have hld : c.pk.load (fs i) = .ok s := by
+      have := P.h1 i s 0 [] hl hs
+      rw [List.append_nil] at this; rw [hfs]; exact this
+    rw [hld]
+    cases s with
+    | item l v =>
+      have hi := storedAt_item c i hs
+      simp only [cons_ncomputed, cons_resumed, cons_files]
+      have := ih (i+1) (push c.length hist v) (live_succ c i hl hi) (fun j h1 h2 hlj => hcomp j (by omega) (by omega) hlj)
+      exact ⟨by rw [this.1], this.2.1, this.2.2⟩
+    | stop l => exact ⟨rfl, rfl, rfl⟩
+
+
 /-! ## concurrency -/
 
 
